@@ -135,68 +135,111 @@ theorem toSymbolicRepr_nil (c : NContent) : toSymbolicRepr [] c = .ok (symOf c) 
         rfl)]
   rfl
 
-/-! ### the builder calls do not depend on the threaded `functions` dict -/
+/-! ### the builder calls and the set `taken` do not depend on the threaded `functions` dict -/
 
-def initVal (taken : List String) : SymVal → BVal
-  | .num v => .num v
-  | .fn f => .ref { key := freeName taken ("init_" ++ f.fnName), args := f.args, src := f.src }
-
-def initCalls (taken : List String) (mk : Name → BVal → Call) (l : List (Name × SymVal)) : List Call :=
-  l.map fun kv => mk kv.1 (initVal taken kv.2)
+/-- (`taken` afterwards, builder calls) of `_codegen_variable` / `_codegen_parameter` over a section -/
+def initCalls (mk : Name → BVal → Call) : List (Name × SymVal) → List String → List String × List Call
+  | [], t => (t, [])
+  | (k, .num v) :: rest, t => ((initCalls mk rest t).1, mk k (.num v) :: (initCalls mk rest t).2)
+  | (k, .fn f) :: rest, t =>
+    ((initCalls mk rest (freeName t ("init_" ++ f.fnName) :: t)).1,
+     mk k (.ref { key := freeName t ("init_" ++ f.fnName), args := f.args, src := f.src })
+       :: (initCalls mk rest (freeName t ("init_" ++ f.fnName) :: t)).2)
 
 def derivedCalls (l : List (Name × SymFn)) : List Call :=
   l.map fun kv => Call.addDerived kv.1 { key := kv.2.fnName, args := kv.2.args, src := kv.2.src }
 
-def stoichVal (taken : List String) (rxn : Name) : SymVal → BVal
-  | .num q => .num q
-  | .fn f => .ref { key := freeName taken (rxn ++ "_stoich_" ++ f.fnName), args := f.args, src := f.src }
+def stoichVals (rxn : Name) : List (Name × SymVal) → List String → List String × List (Name × BVal)
+  | [], t => (t, [])
+  | (v, .num q) :: rest, t => ((stoichVals rxn rest t).1, (v, BVal.num q) :: (stoichVals rxn rest t).2)
+  | (v, .fn f) :: rest, t =>
+    ((stoichVals rxn rest (freeName t (rxn ++ "_stoich_" ++ f.fnName) :: t)).1,
+     (v, BVal.ref { key := freeName t (rxn ++ "_stoich_" ++ f.fnName), args := f.args, src := f.src })
+       :: (stoichVals rxn rest (freeName t (rxn ++ "_stoich_" ++ f.fnName) :: t)).2)
 
-def rxnCalls (taken : List String) (l : List (Name × SymRxn)) : List Call :=
-  l.map fun kv => Call.addReaction kv.1 { key := kv.2.fn.fnName, args := kv.2.fn.args, src := kv.2.fn.src }
-    (kv.2.stoich.map fun vs => (vs.1, stoichVal taken kv.1 vs.2))
+def rxnCalls : List (Name × SymRxn) → List String → List String × List Call
+  | [], t => (t, [])
+  | (k, r) :: rest, t =>
+    ((rxnCalls rest (stoichVals k r.stoich t).1).1,
+     Call.addReaction k { key := r.fn.fnName, args := r.fn.args, src := r.fn.src } (stoichVals k r.stoich t).2
+       :: (rxnCalls rest (stoichVals k r.stoich t).1).2)
 
-theorem genInits_snd (taken : List String) (mk : Name → BVal → Call) : ∀ (l : List (Name × SymVal)) (fs : Fns),
-    (genInits taken mk l fs).2 = initCalls taken mk l := by
+theorem genInits_calls (mk : Name → BVal → Call) : ∀ (l : List (Name × SymVal)) (st : GenSt),
+    (genInits mk l st).1.1 = (initCalls mk l st.1).1 ∧ (genInits mk l st).2 = (initCalls mk l st.1).2 := by
   intro l; induction l with
-  | nil => intro fs; rfl
+  | nil => intro st; exact ⟨rfl, rfl⟩
   | cons kv rest ih =>
-    intro fs
+    intro st
     obtain ⟨k, v⟩ := kv
     cases v with
-    | num q => simp [genInits, genInit, initCalls, initVal, ih]
-    | fn f => simp [genInits, genInit, initCalls, initVal]; exact ih _
+    | num q =>
+      have := ih st
+      simp only [genInits, genInit, initCalls]
+      exact ⟨this.1, by rw [this.2]⟩
+    | fn f =>
+      have := ih (freeName st.1 ("init_" ++ f.fnName) :: st.1, st.2.put (freeName st.1 ("init_" ++ f.fnName)) f)
+      simp only [genInits, genInit, initCalls]
+      exact ⟨this.1, by rw [this.2]⟩
 
-theorem genDerived_snd : ∀ (l : List (Name × SymFn)) (fs : Fns),
-    (genDerived l fs).2 = derivedCalls l := by
+theorem genDerived_calls : ∀ (l : List (Name × SymFn)) (st : GenSt),
+    (genDerived l st).1.1 = st.1 ∧ (genDerived l st).2 = derivedCalls l := by
   intro l; induction l with
-  | nil => intro fs; rfl
+  | nil => intro st; exact ⟨rfl, rfl⟩
   | cons kv rest ih =>
-    intro fs; obtain ⟨k, f⟩ := kv
-    simp [genDerived, derivedCalls]; exact ih _
+    intro st; obtain ⟨k, f⟩ := kv
+    have := ih (st.1, st.2.put f.fnName f)
+    simp only [genDerived, derivedCalls, List.map_cons]
+    exact ⟨this.1, by rw [this.2]; rfl⟩
 
-theorem genStoich_snd (taken : List String) (rxn : Name) : ∀ (l : List (Name × SymVal)) (fs : Fns),
-    (genStoich taken rxn l fs).2 = l.map fun vs => (vs.1, stoichVal taken rxn vs.2) := by
+theorem genStoich_calls (rxn : Name) : ∀ (l : List (Name × SymVal)) (st : GenSt),
+    (genStoich rxn l st).1.1 = (stoichVals rxn l st.1).1 ∧ (genStoich rxn l st).2 = (stoichVals rxn l st.1).2 := by
   intro l; induction l with
-  | nil => intro fs; rfl
+  | nil => intro st; exact ⟨rfl, rfl⟩
   | cons kv rest ih =>
-    intro fs; obtain ⟨k, v⟩ := kv
+    intro st; obtain ⟨k, v⟩ := kv
     cases v with
-    | num q => simp [genStoich, stoichVal]; exact ih _
-    | fn f => simp [genStoich, stoichVal]; exact ih _
+    | num q =>
+      have := ih st
+      simp only [genStoich, stoichVals]
+      exact ⟨this.1, by rw [this.2]⟩
+    | fn f =>
+      have := ih (freeName st.1 (rxn ++ "_stoich_" ++ f.fnName) :: st.1,
+        st.2.put (freeName st.1 (rxn ++ "_stoich_" ++ f.fnName)) f)
+      simp only [genStoich, stoichVals]
+      exact ⟨this.1, by rw [this.2]⟩
 
-theorem genReactions_snd (taken : List String) : ∀ (l : List (Name × SymRxn)) (fs : Fns),
-    (genReactions taken l fs).2 = rxnCalls taken l := by
+theorem genReactions_calls : ∀ (l : List (Name × SymRxn)) (st : GenSt),
+    (genReactions l st).1.1 = (rxnCalls l st.1).1 ∧ (genReactions l st).2 = (rxnCalls l st.1).2 := by
   intro l; induction l with
-  | nil => intro fs; rfl
+  | nil => intro st; exact ⟨rfl, rfl⟩
   | cons kv rest ih =>
-    intro fs; obtain ⟨k, r⟩ := kv
-    simp [genReactions, rxnCalls, genStoich_snd]; exact ih _
+    intro st; obtain ⟨k, r⟩ := kv
+    have h1 := genStoich_calls k r.stoich (st.1, st.2.put r.fn.fnName r.fn)
+    have h2 := ih (genStoich k r.stoich (st.1, st.2.put r.fn.fnName r.fn)).1
+    simp only [genReactions, rxnCalls]
+    simp only at h1
+    rw [h1.1] at h2
+    exact ⟨h2.1, by rw [h2.2, h1.2]⟩
+
+/-- `taken` after the variables, after the parameters -/
+def takenV (s : SymRepr) : List String := (initCalls Call.addVariable s.variables (takenOf s)).1
+def takenP (s : SymRepr) : List String := (initCalls Call.addParameter s.parameters (takenV s)).1
 
 theorem genMxlpy_build (s : SymRepr) :
-    (genProgram s).build = initCalls (takenOf s) Call.addVariable s.variables
-      ++ initCalls (takenOf s) Call.addParameter s.parameters
-      ++ derivedCalls s.derived ++ rxnCalls (takenOf s) s.reactions := by
-  simp [genProgram, genInits_snd, genDerived_snd, genReactions_snd]
+    (genProgram s).build = (initCalls Call.addVariable s.variables (takenOf s)).2
+      ++ (initCalls Call.addParameter s.parameters (takenV s)).2
+      ++ derivedCalls s.derived ++ (rxnCalls s.reactions (takenP s)).2 := by
+  have h1 := genInits_calls Call.addVariable s.variables (takenOf s, [])
+  have h2 := genInits_calls Call.addParameter s.parameters (genInits Call.addVariable s.variables (takenOf s, [])).1
+  have h3 := genDerived_calls s.derived
+    (genInits Call.addParameter s.parameters (genInits Call.addVariable s.variables (takenOf s, [])).1).1
+  have h4 := genReactions_calls s.reactions (genDerived s.derived
+    (genInits Call.addParameter s.parameters (genInits Call.addVariable s.variables (takenOf s, [])).1).1).1
+  simp only [genProgram, takenV, takenP]
+  simp only at h1
+  rw [h1.1] at h2
+  rw [h3.1, h2.1] at h4
+  rw [h1.2, h2.2, h3.2, h4.2]
 
 /-! ### every definition in the `functions` dict comes from a use of the model -/
 
@@ -232,57 +275,65 @@ def SymValOk (c : NContent) : SymVal → Prop
   | .num _ => True
   | .fn f => SymOk c f
 
-theorem genInits_ok {c : NContent} (taken : List String) (mk : Name → BVal → Call) :
-    ∀ (l : List (Name × SymVal)) (fs : Fns),
-    AllOk c fs → (∀ kv ∈ l, SymValOk c kv.2) → AllOk c (genInits taken mk l fs).1 := by
+theorem genInits_ok {c : NContent} (mk : Name → BVal → Call) :
+    ∀ (l : List (Name × SymVal)) (st : GenSt),
+    AllOk c st.2 → (∀ kv ∈ l, SymValOk c kv.2) → AllOk c (genInits mk l st).1.2 := by
   intro l; induction l with
-  | nil => intro fs h _; exact h
+  | nil => intro st h _; exact h
   | cons kv rest ih =>
-    intro fs h hl
+    intro st h hl
     obtain ⟨k, v⟩ := kv
     have hrest : ∀ kv ∈ rest, SymValOk c kv.2 := fun kv hkv => hl kv (List.mem_cons_of_mem _ hkv)
     cases v with
-    | num q => simpa [genInits, genInit] using ih fs h hrest
+    | num q =>
+      simp only [genInits, genInit]
+      exact ih st h hrest
     | fn f =>
       have hf : SymOk c f := hl (k, .fn f) List.mem_cons_self
-      simpa [genInits, genInit] using ih _ (h.put hf _) hrest
+      simp only [genInits, genInit]
+      exact ih (_, _) (h.put hf _) hrest
 
-theorem genDerived_ok {c : NContent} : ∀ (l : List (Name × SymFn)) (fs : Fns),
-    AllOk c fs → (∀ kv ∈ l, SymOk c kv.2) → AllOk c (genDerived l fs).1 := by
+theorem genDerived_ok {c : NContent} : ∀ (l : List (Name × SymFn)) (st : GenSt),
+    AllOk c st.2 → (∀ kv ∈ l, SymOk c kv.2) → AllOk c (genDerived l st).1.2 := by
   intro l; induction l with
-  | nil => intro fs h _; exact h
+  | nil => intro st h _; exact h
   | cons kv rest ih =>
-    intro fs h hl
+    intro st h hl
     obtain ⟨k, f⟩ := kv
     have hrest : ∀ kv ∈ rest, SymOk c kv.2 := fun kv hkv => hl kv (List.mem_cons_of_mem _ hkv)
-    simpa [genDerived] using ih _ (h.put (hl (k, f) List.mem_cons_self) _) hrest
+    simp only [genDerived]
+    exact ih (_, _) (h.put (hl (k, f) List.mem_cons_self) _) hrest
 
-theorem genStoich_ok {c : NContent} (taken : List String) (rxn : Name) : ∀ (l : List (Name × SymVal)) (fs : Fns),
-    AllOk c fs → (∀ kv ∈ l, SymValOk c kv.2) → AllOk c (genStoich taken rxn l fs).1 := by
+theorem genStoich_ok {c : NContent} (rxn : Name) : ∀ (l : List (Name × SymVal)) (st : GenSt),
+    AllOk c st.2 → (∀ kv ∈ l, SymValOk c kv.2) → AllOk c (genStoich rxn l st).1.2 := by
   intro l; induction l with
-  | nil => intro fs h _; exact h
+  | nil => intro st h _; exact h
   | cons kv rest ih =>
-    intro fs h hl
+    intro st h hl
     obtain ⟨k, v⟩ := kv
     have hrest : ∀ kv ∈ rest, SymValOk c kv.2 := fun kv hkv => hl kv (List.mem_cons_of_mem _ hkv)
     cases v with
-    | num q => simpa [genStoich] using ih fs h hrest
+    | num q =>
+      simp only [genStoich]
+      exact ih st h hrest
     | fn f =>
       have hf : SymOk c f := hl (k, .fn f) List.mem_cons_self
-      simpa [genStoich] using ih _ (h.put hf _) hrest
+      simp only [genStoich]
+      exact ih (_, _) (h.put hf _) hrest
 
 def SymRxnOk (c : NContent) (r : SymRxn) : Prop := SymOk c r.fn ∧ ∀ vs ∈ r.stoich, SymValOk c vs.2
 
-theorem genReactions_ok {c : NContent} (taken : List String) : ∀ (l : List (Name × SymRxn)) (fs : Fns),
-    AllOk c fs → (∀ kv ∈ l, SymRxnOk c kv.2) → AllOk c (genReactions taken l fs).1 := by
+theorem genReactions_ok {c : NContent} : ∀ (l : List (Name × SymRxn)) (st : GenSt),
+    AllOk c st.2 → (∀ kv ∈ l, SymRxnOk c kv.2) → AllOk c (genReactions l st).1.2 := by
   intro l; induction l with
-  | nil => intro fs h _; exact h
+  | nil => intro st h _; exact h
   | cons kv rest ih =>
-    intro fs h hl
+    intro st h hl
     obtain ⟨k, r⟩ := kv
     have hrest : ∀ kv ∈ rest, SymRxnOk c kv.2 := fun kv hkv => hl kv (List.mem_cons_of_mem _ hkv)
     have hr := hl (k, r) List.mem_cons_self
-    simpa [genReactions] using ih _ (genStoich_ok taken k r.stoich _ (h.put hr.1 _) hr.2) hrest
+    simp only [genReactions]
+    exact ih _ (genStoich_ok k r.stoich (_, _) (h.put hr.1 _) hr.2) hrest
 
 /-! ### uses of the model -/
 
@@ -312,31 +363,28 @@ theorem use_of_coef {c : NContent} {k v : Name} {r : NRxn} {u : Use} (h : (k, r)
   simp only [List.mem_filterMap]
   exact ⟨_, hv, rfl⟩
 
-theorem symOf_defs_ok (c : NContent) : AllOk c (genProgram (symOf c)).defs := by
-  unfold genProgram
-  simp only
-  have h0 : AllOk c ([] : Fns) := by intro kd h; cases h
-  have hv : ∀ kv ∈ (symOf c).variables, SymValOk c kv.2 := by
-    intro kv h
+/-- the symbolic representation of a model consists of uses of the model -/
+theorem symOf_ok (c : NContent) :
+    (∀ kv ∈ (symOf c).variables, SymValOk c kv.2) ∧ (∀ kv ∈ (symOf c).parameters, SymValOk c kv.2)
+    ∧ (∀ kv ∈ (symOf c).derived, SymOk c kv.2) ∧ (∀ kv ∈ (symOf c).reactions, SymRxnOk c kv.2) := by
+  refine ⟨?_, ?_, ?_, ?_⟩
+  · intro kv h
     simp only [symOf, List.mem_map] at h
     obtain ⟨⟨k, v⟩, hm, rfl⟩ := h
     cases v with
     | plain q => trivial
     | ia u => exact symFnOf_ok (use_of_var hm)
-  have hp : ∀ kv ∈ (symOf c).parameters, SymValOk c kv.2 := by
-    intro kv h
+  · intro kv h
     simp only [symOf, List.mem_map] at h
     obtain ⟨⟨k, v⟩, hm, rfl⟩ := h
     cases v with
     | plain q => trivial
     | ia u => exact symFnOf_ok (use_of_par hm)
-  have hd : ∀ kv ∈ (symOf c).derived, SymOk c kv.2 := by
-    intro kv h
+  · intro kv h
     simp only [symOf, List.mem_map] at h
     obtain ⟨⟨k, u⟩, hm, rfl⟩ := h
     exact symFnOf_ok (use_of_derived hm)
-  have hr : ∀ kv ∈ (symOf c).reactions, SymRxnOk c kv.2 := by
-    intro kv h
+  · intro kv h
     simp only [symOf, List.mem_map] at h
     obtain ⟨⟨k, r⟩, hm, rfl⟩ := h
     refine ⟨symFnOf_ok (use_of_rate hm), ?_⟩
@@ -346,7 +394,13 @@ theorem symOf_defs_ok (c : NContent) : AllOk c (genProgram (symOf c)).defs := by
     cases cf with
     | num q => trivial
     | dyn u => exact symFnOf_ok (use_of_coef hm hm2)
-  exact genReactions_ok _ _ _ (genDerived_ok _ _ (genInits_ok _ _ _ _ (genInits_ok _ _ _ _ h0 hv) hp) hd) hr
+
+theorem symOf_defs_ok (c : NContent) : AllOk c (genProgram (symOf c)).defs := by
+  unfold genProgram
+  simp only
+  have h0 : AllOk c ([] : Fns) := by intro kd h; cases h
+  obtain ⟨hv, hp, hd, hr⟩ := symOf_ok c
+  exact genReactions_ok _ _ (genDerived_ok _ _ (genInits_ok _ _ _ (genInits_ok _ _ (_, _) h0 hv) hp) hd) hr
 
 /-! ### running the builder chain against the final definitions -/
 
@@ -370,56 +424,65 @@ theorem checkDefs_ok : ∀ (D : Fns), (D.all fun kd => !hasDup kd.2.params) = tr
     have h1 : hasDup d.params = false := by simpa using h.1
     simp [checkDefs, h1, ih h.2]
 
-theorem resolveVal_init {c : NContent} {D : Fns} (g : Good c D) (taken : List String) (v : NVal)
-    (hr : ∀ r ∈ (initVal taken (symValOf c v)).refs, refOk D r = true) :
-    resolveVal D (initVal taken (symValOf c v)) = .ok (c.valOf v) := by
-  cases v with
-  | plain q => simp [symValOf, initVal, resolveVal, NContent.valOf, pure, Except.pure]
-  | ia u =>
-    have := resolve_use g u (freeName taken ("init_" ++ (c.pyfn u.fid).name)) (hr _ (by simp [symValOf, initVal, BVal.refs, symFnOf]))
-    simp [symValOf, initVal, resolveVal, NContent.valOf, symFnOf, this, pure, Except.pure, bind, Except.bind]
+theorem run_inits {c : NContent} {D : Fns} (g : Good c D) (mk : Name → BVal → Call)
+    (push : Content → Name × Val → Content)
+    (hmk : ∀ k b, (mk k b).refs = b.refs)
+    (hrun : ∀ k b rest c0, runCalls D (mk k b :: rest) c0
+      = (resolveVal D b).bind fun v' => runCalls D rest (push c0 (k, v'))) :
+    ∀ (l : List (Name × NVal)) (t : List String) (c0 : Content),
+    (∀ call ∈ (initCalls mk (l.map fun kv => (kv.1, symValOf c kv.2)) t).2, ∀ r ∈ call.refs, refOk D r = true) →
+    runCalls D (initCalls mk (l.map fun kv => (kv.1, symValOf c kv.2)) t).2 c0
+      = .ok ((l.map fun kv => (kv.1, c.valOf kv.2)).foldl push c0) := by
+  intro l; induction l with
+  | nil => intro t c0 _; simp [initCalls, runCalls, pure, Except.pure]
+  | cons kv rest ih =>
+    intro t c0 h
+    obtain ⟨k, v⟩ := kv
+    cases v with
+    | plain q =>
+      simp only [List.map_cons, symValOf, initCalls] at h ⊢
+      rw [hrun]
+      simp only [resolveVal, pure, Except.pure, Except.bind, List.foldl_cons, NContent.valOf]
+      exact ih t _ (fun call hc => h call (List.mem_cons_of_mem _ hc))
+    | ia u =>
+      simp only [List.map_cons, symValOf, initCalls] at h ⊢
+      have h1 := resolve_use g u (freeName t ("init_" ++ (symFnOf c u).fnName))
+        (h _ List.mem_cons_self _ (by rw [hmk]; simp [BVal.refs, symFnOf]))
+      rw [hrun]
+      simp only [symFnOf] at h1 ⊢
+      simp only [resolveVal, h1, bind, pure, Except.pure, Except.bind, List.foldl_cons, NContent.valOf]
+      exact ih _ _ (fun call hc => h call (List.mem_cons_of_mem _ hc))
 
-theorem resolveCoef_stoich {c : NContent} {D : Fns} (g : Good c D) (taken : List String) (rxn : Name) (v : NCoef)
-    (hr : ∀ r ∈ (stoichVal taken rxn (symCoefOf c v)).refs, refOk D r = true) :
-    resolveCoef D (stoichVal taken rxn (symCoefOf c v)) = .ok (c.coefOf v) := by
-  cases v with
-  | num q => simp [symCoefOf, stoichVal, resolveCoef, NContent.coefOf, pure, Except.pure]
-  | dyn u =>
-    have := resolve_use g u (freeName taken (rxn ++ "_stoich_" ++ (c.pyfn u.fid).name)) (hr _ (by simp [symCoefOf, stoichVal, BVal.refs, symFnOf]))
-    simp [symCoefOf, stoichVal, resolveCoef, NContent.coefOf, symFnOf, this, pure, Except.pure, bind, Except.bind]
+theorem foldl_push_vars (l : List (Name × Val)) (c0 : Content) :
+    l.foldl (fun c kv => { c with vars := c.vars ++ [kv] }) c0 = { c0 with vars := c0.vars ++ l } := by
+  induction l generalizing c0 with
+  | nil => simp
+  | cons x rest ih => simp [ih]
 
-theorem run_vars {c : NContent} {D : Fns} (g : Good c D) (taken : List String) : ∀ (l : List (Name × NVal)) (c0 : Content),
-    (∀ kv ∈ l, ∀ r ∈ (initVal taken (symValOf c kv.2)).refs, refOk D r = true) →
-    runCalls D (initCalls taken Call.addVariable (l.map fun kv => (kv.1, symValOf c kv.2))) c0
+theorem foldl_push_pars (l : List (Name × Val)) (c0 : Content) :
+    l.foldl (fun c kv => { c with pars := c.pars ++ [kv] }) c0 = { c0 with pars := c0.pars ++ l } := by
+  induction l generalizing c0 with
+  | nil => simp
+  | cons x rest ih => simp [ih]
+
+theorem run_vars {c : NContent} {D : Fns} (g : Good c D) (l : List (Name × NVal)) (t : List String) (c0 : Content)
+    (h : ∀ call ∈ (initCalls Call.addVariable (l.map fun kv => (kv.1, symValOf c kv.2)) t).2,
+      ∀ r ∈ call.refs, refOk D r = true) :
+    runCalls D (initCalls Call.addVariable (l.map fun kv => (kv.1, symValOf c kv.2)) t).2 c0
       = .ok { c0 with vars := c0.vars ++ l.map fun kv => (kv.1, c.valOf kv.2) } := by
-  intro l; induction l with
-  | nil => intro c0 _; simp [initCalls, runCalls, pure, Except.pure]
-  | cons kv rest ih =>
-    intro c0 h
-    obtain ⟨k, v⟩ := kv
-    have h1 := resolveVal_init g taken v (h (k, v) List.mem_cons_self)
-    have h2 := ih { c0 with vars := c0.vars ++ [(k, c.valOf v)] }
-      (fun kv hkv => h kv (List.mem_cons_of_mem _ hkv))
-    simp only [initCalls, List.map_cons, runCalls, h1, bind, Except.bind] at h2 ⊢
-    rw [h2]; simp
+  rw [run_inits g Call.addVariable (fun c kv => { c with vars := c.vars ++ [kv] }) (fun _ _ => rfl)
+    (by intro k b rest c0; simp only [runCalls, bind]) l t c0 h, foldl_push_vars]
 
-theorem run_pars {c : NContent} {D : Fns} (g : Good c D) (taken : List String) : ∀ (l : List (Name × NVal)) (c0 : Content),
-    (∀ kv ∈ l, ∀ r ∈ (initVal taken (symValOf c kv.2)).refs, refOk D r = true) →
-    runCalls D (initCalls taken Call.addParameter (l.map fun kv => (kv.1, symValOf c kv.2))) c0
+theorem run_pars {c : NContent} {D : Fns} (g : Good c D) (l : List (Name × NVal)) (t : List String) (c0 : Content)
+    (h : ∀ call ∈ (initCalls Call.addParameter (l.map fun kv => (kv.1, symValOf c kv.2)) t).2,
+      ∀ r ∈ call.refs, refOk D r = true) :
+    runCalls D (initCalls Call.addParameter (l.map fun kv => (kv.1, symValOf c kv.2)) t).2 c0
       = .ok { c0 with pars := c0.pars ++ l.map fun kv => (kv.1, c.valOf kv.2) } := by
-  intro l; induction l with
-  | nil => intro c0 _; simp [initCalls, runCalls, pure, Except.pure]
-  | cons kv rest ih =>
-    intro c0 h
-    obtain ⟨k, v⟩ := kv
-    have h1 := resolveVal_init g taken v (h (k, v) List.mem_cons_self)
-    have h2 := ih { c0 with pars := c0.pars ++ [(k, c.valOf v)] }
-      (fun kv hkv => h kv (List.mem_cons_of_mem _ hkv))
-    simp only [initCalls, List.map_cons, runCalls, h1, bind, Except.bind] at h2 ⊢
-    rw [h2]; simp
+  rw [run_inits g Call.addParameter (fun c kv => { c with pars := c.pars ++ [kv] }) (fun _ _ => rfl)
+    (by intro k b rest c0; simp only [runCalls, bind]) l t c0 h, foldl_push_pars]
 
 theorem run_derived {c : NContent} {D : Fns} (g : Good c D) : ∀ (l : List (Name × Use)) (c0 : Content),
-    (∀ kv ∈ l, refOk D { key := (c.pyfn kv.2.fid).name, args := kv.2.args, src := kv.2.fid } = true) →
+    (∀ call ∈ derivedCalls (l.map fun kv => (kv.1, symFnOf c kv.2)), ∀ r ∈ call.refs, refOk D r = true) →
     runCalls D (derivedCalls (l.map fun kv => (kv.1, symFnOf c kv.2))) c0
       = .ok { c0 with derived := c0.derived ++ l.map fun kv => (kv.1, c.fnOf kv.2) } := by
   intro l; induction l with
@@ -427,9 +490,11 @@ theorem run_derived {c : NContent} {D : Fns} (g : Good c D) : ∀ (l : List (Nam
   | cons kv rest ih =>
     intro c0 h
     obtain ⟨k, u⟩ := kv
-    have h1 := resolve_use g u _ (h (k, u) List.mem_cons_self)
+    have h1 := resolve_use g u (c.pyfn u.fid).name
+      (h (Call.addDerived k { key := (c.pyfn u.fid).name, args := u.args, src := u.fid })
+        (by simp [derivedCalls, symFnOf]) _ (by simp [Call.refs]))
     have h2 := ih { c0 with derived := c0.derived ++ [(k, c.fnOf u)] }
-      (fun kv hkv => h kv (List.mem_cons_of_mem _ hkv))
+      (fun call hc => h call (by simp only [derivedCalls, List.map_cons] at hc ⊢; exact List.mem_cons_of_mem _ hc))
     simp only [derivedCalls, List.map_cons, runCalls, symFnOf, h1, bind, Except.bind] at h2 ⊢
     rw [h2]; simp
 
@@ -443,27 +508,39 @@ theorem mapM_ok_mem {α β} (f : α → Except Err β) (g : α → β) :
     have h2 := ih (fun b hb => h b (List.mem_cons_of_mem _ hb))
     simp only [List.mapM_cons, h1, h2, bind, Except.bind, pure, Except.pure, List.map_cons]
 
-theorem stoich_mapM {c : NContent} {D : Fns} (g : Good c D) (taken : List String) (rxn : Name) (st : List (Name × NCoef))
-    (h : ∀ vc ∈ st, ∀ r ∈ (stoichVal taken rxn (symCoefOf c vc.2)).refs, refOk D r = true) :
-    (st.map fun vc => (vc.1, stoichVal taken rxn (symCoefOf c vc.2))).mapM
+theorem stoich_mapM {c : NContent} {D : Fns} (g : Good c D) (rxn : Name) :
+    ∀ (st : List (Name × NCoef)) (t : List String),
+    (∀ vb ∈ (stoichVals rxn (st.map fun vc => (vc.1, symCoefOf c vc.2)) t).2, ∀ r ∈ vb.2.refs, refOk D r = true) →
+    (stoichVals rxn (st.map fun vc => (vc.1, symCoefOf c vc.2)) t).2.mapM
         (fun vc => (do pure (vc.1, ← resolveCoef D vc.2) : Except Err (Name × Coef)))
       = .ok (st.map fun vc => (vc.1, c.coefOf vc.2)) := by
-  have := mapM_ok_mem (fun vc : Name × BVal => (do pure (vc.1, ← resolveCoef D vc.2) : Except Err (Name × Coef)))
-    (fun vc : Name × BVal => (vc.1, match resolveCoef D vc.2 with | .ok x => x | .error _ => Coef.num 0))
-    (st.map fun vc => (vc.1, stoichVal taken rxn (symCoefOf c vc.2)))
-    (by
-      intro a ha
-      simp only [List.mem_map] at ha
-      obtain ⟨⟨v, cf⟩, hm, rfl⟩ := ha
-      have h1 := resolveCoef_stoich g taken rxn cf (h (v, cf) hm)
-      simp only [h1, bind, Except.bind, pure, Except.pure])
-  rw [this, List.map_map]
-  congr 1
-  apply List.map_congr_left
-  intro a ha
-  obtain ⟨v, cf⟩ := a
-  have h1 := resolveCoef_stoich g taken rxn cf (h (v, cf) ha)
-  simp only [Function.comp, h1]
+  intro st; induction st with
+  | nil => intro t _; rfl
+  | cons vc rest ih =>
+    intro t h
+    obtain ⟨v, cf⟩ := vc
+    cases cf with
+    | num q =>
+      have e : stoichVals rxn (((v, NCoef.num q) :: rest).map fun vc => (vc.1, symCoefOf c vc.2)) t
+          = ((stoichVals rxn (rest.map fun vc => (vc.1, symCoefOf c vc.2)) t).1,
+             (v, BVal.num q) :: (stoichVals rxn (rest.map fun vc => (vc.1, symCoefOf c vc.2)) t).2) := rfl
+      rw [e] at h ⊢
+      have h2 := ih t (fun vb hvb => h vb (List.mem_cons_of_mem _ hvb))
+      simp only [List.mapM_cons, h2]
+      simp only [List.map_cons, resolveCoef, bind, Except.bind, pure, Except.pure, NContent.coefOf]
+    | dyn u =>
+      have e : stoichVals rxn (((v, NCoef.dyn u) :: rest).map fun vc => (vc.1, symCoefOf c vc.2)) t
+          = ((stoichVals rxn (rest.map fun vc => (vc.1, symCoefOf c vc.2))
+                (freeName t (rxn ++ "_stoich_" ++ (c.pyfn u.fid).name) :: t)).1,
+             (v, BVal.ref { key := freeName t (rxn ++ "_stoich_" ++ (c.pyfn u.fid).name), args := u.args, src := u.fid })
+              :: (stoichVals rxn (rest.map fun vc => (vc.1, symCoefOf c vc.2))
+                (freeName t (rxn ++ "_stoich_" ++ (c.pyfn u.fid).name) :: t)).2) := rfl
+      rw [e] at h ⊢
+      have h1 := resolve_use g u (freeName t (rxn ++ "_stoich_" ++ (c.pyfn u.fid).name))
+        (h _ List.mem_cons_self _ (by simp [BVal.refs]))
+      have h2 := ih _ (fun vb hvb => h vb (List.mem_cons_of_mem _ hvb))
+      simp only [List.mapM_cons, h2]
+      simp only [List.map_cons, resolveCoef, h1, bind, Except.bind, pure, Except.pure, NContent.coefOf]
 
 def rxnOf (c : NContent) (r : NRxn) : Rxn :=
   { rate := c.fnOf r.rate, stoich := r.stoich.map fun vc => (vc.1, c.coefOf vc.2) }
@@ -471,25 +548,30 @@ def rxnOf (c : NContent) (r : NRxn) : Rxn :=
 def symRxnOf (c : NContent) (r : NRxn) : SymRxn :=
   { fn := symFnOf c r.rate, stoich := r.stoich.map fun vc => (vc.1, symCoefOf c vc.2) }
 
-theorem run_rxns {c : NContent} {D : Fns} (g : Good c D) (taken : List String) : ∀ (l : List (Name × NRxn)) (c0 : Content),
-    (∀ kv ∈ l, refOk D { key := (c.pyfn kv.2.rate.fid).name, args := kv.2.rate.args, src := kv.2.rate.fid } = true
-       ∧ ∀ vc ∈ kv.2.stoich, ∀ r ∈ (stoichVal taken kv.1 (symCoefOf c vc.2)).refs, refOk D r = true) →
-    runCalls D (rxnCalls taken (l.map fun kv => (kv.1, symRxnOf c kv.2))) c0
+theorem run_rxns {c : NContent} {D : Fns} (g : Good c D) : ∀ (l : List (Name × NRxn)) (t : List String) (c0 : Content),
+    (∀ call ∈ (rxnCalls (l.map fun kv => (kv.1, symRxnOf c kv.2)) t).2, ∀ r ∈ call.refs, refOk D r = true) →
+    runCalls D (rxnCalls (l.map fun kv => (kv.1, symRxnOf c kv.2)) t).2 c0
       = .ok { c0 with rxns := c0.rxns ++ l.map fun kv => (kv.1, rxnOf c kv.2) } := by
   intro l; induction l with
-  | nil => intro c0 _; simp [rxnCalls, runCalls, pure, Except.pure]
+  | nil => intro t c0 _; simp [rxnCalls, runCalls, pure, Except.pure]
   | cons kv rest ih =>
-    intro c0 h
+    intro t c0 h
     obtain ⟨k, r⟩ := kv
-    have hk := h (k, r) List.mem_cons_self
-    have h1 := resolve_use g r.rate _ hk.1
-    have h3 := stoich_mapM g taken k r.stoich hk.2
-    have h2 := ih { c0 with rxns := c0.rxns ++ [(k, rxnOf c r)] }
-      (fun kv hkv => h kv (List.mem_cons_of_mem _ hkv))
-    simp only [rxnCalls, List.map_cons, runCalls, symRxnOf, symFnOf, List.map_map, Function.comp_def, h1, bind, Except.bind] at h2 h3 ⊢
-    simp only [h3]
-    simp only [rxnOf] at h2
-    rw [h2]; simp [rxnOf]
+    simp only [List.map_cons, rxnCalls] at h ⊢
+    have hk := h _ List.mem_cons_self
+    have h1 := resolve_use g r.rate (c.pyfn r.rate.fid).name (hk _ (by simp [Call.refs, symRxnOf, symFnOf]))
+    have h3 := stoich_mapM g k r.stoich t (by
+      intro vb hvb x hx
+      refine hk x ?_
+      simp only [Call.refs, List.mem_cons, List.mem_flatMap]
+      exact Or.inr ⟨vb, hvb, hx⟩)
+    have h2 := ih (stoichVals k (symRxnOf c r).stoich t).1 { c0 with rxns := c0.rxns ++ [(k, rxnOf c r)] }
+      (fun call hc => h call (List.mem_cons_of_mem _ hc))
+    simp only [symRxnOf, symFnOf] at h1 h2 h3 ⊢
+    simp only [runCalls, h1, h3]
+    simp only [bind, Except.bind]
+    simp only [rxnOf] at h2 ⊢
+    rw [h2]; simp
 
 theorem runCalls_append (D : Fns) : ∀ (a b : List Call) (c0 : Content),
     runCalls D (a ++ b) c0 = (runCalls D a c0).bind (runCalls D b) := by
@@ -791,63 +873,29 @@ theorem roundTrip_ok (c : NContent) (hc : Canonical c) (h : refsResolve c = true
   unfold refsResolve at h
   rw [toSymbolicRepr_nil] at h
   simp only [Program.refsOk, Bool.and_eq_true] at h
-  obtain ⟨hnd, hrefs⟩ := h
+  obtain ⟨hcons, hnd, hrefs⟩ := h
   have g : Good c (genProgram (symOf c)).defs := ⟨hc, symOf_defs_ok c, hnd⟩
   have hall : ∀ call ∈ (genProgram (symOf c)).build, ∀ r ∈ call.refs, refOk (genProgram (symOf c)).defs r = true := by
     intro call hcall r hr
     exact List.all_eq_true.mp (List.all_eq_true.mp hrefs call hcall) r hr
-  rw [genMxlpy_build] at hall
-  have hV : ∀ kv ∈ c.vars, ∀ r ∈ (initVal (takenOf (symOf c)) (symValOf c kv.2)).refs, refOk (genProgram (symOf c)).defs r = true := by
-    intro kv hkv r hr
-    refine hall (Call.addVariable kv.1 (initVal (takenOf (symOf c)) (symValOf c kv.2))) ?_ r (by simpa [Call.refs] using hr)
-    simp only [List.mem_append, initCalls, symOf, List.mem_map]
-    exact Or.inl (Or.inl (Or.inl ⟨(kv.1, symValOf c kv.2), ⟨kv, hkv, rfl⟩, rfl⟩))
-  have hP : ∀ kv ∈ c.pars, ∀ r ∈ (initVal (takenOf (symOf c)) (symValOf c kv.2)).refs, refOk (genProgram (symOf c)).defs r = true := by
-    intro kv hkv r hr
-    refine hall (Call.addParameter kv.1 (initVal (takenOf (symOf c)) (symValOf c kv.2))) ?_ r (by simpa [Call.refs] using hr)
-    simp only [List.mem_append, initCalls, symOf, List.mem_map]
-    exact Or.inl (Or.inl (Or.inr ⟨(kv.1, symValOf c kv.2), ⟨kv, hkv, rfl⟩, rfl⟩))
-  have hD : ∀ kv ∈ c.derived, refOk (genProgram (symOf c)).defs
-      { key := (c.pyfn kv.2.fid).name, args := kv.2.args, src := kv.2.fid } = true := by
-    intro kv hkv
-    refine hall (Call.addDerived kv.1 { key := (c.pyfn kv.2.fid).name, args := kv.2.args, src := kv.2.fid }) ?_ _
-      (by simp [Call.refs])
-    simp only [List.mem_append, derivedCalls, symOf, List.mem_map]
-    exact Or.inl (Or.inr ⟨(kv.1, symFnOf c kv.2), ⟨kv, hkv, rfl⟩, rfl⟩)
-  have hR : ∀ kv ∈ c.rxns, refOk (genProgram (symOf c)).defs
-        { key := (c.pyfn kv.2.rate.fid).name, args := kv.2.rate.args, src := kv.2.rate.fid } = true
-       ∧ ∀ vc ∈ kv.2.stoich, ∀ r ∈ (stoichVal (takenOf (symOf c)) kv.1 (symCoefOf c vc.2)).refs,
-           refOk (genProgram (symOf c)).defs r = true := by
-    intro kv hkv
-    have hm : Call.addReaction kv.1 { key := (c.pyfn kv.2.rate.fid).name, args := kv.2.rate.args, src := kv.2.rate.fid }
-        ((symRxnOf c kv.2).stoich.map fun vs => (vs.1, stoichVal (takenOf (symOf c)) kv.1 vs.2))
-        ∈ initCalls (takenOf (symOf c)) Call.addVariable (symOf c).variables
-          ++ initCalls (takenOf (symOf c)) Call.addParameter (symOf c).parameters
-          ++ derivedCalls (symOf c).derived ++ rxnCalls (takenOf (symOf c)) (symOf c).reactions := by
-      simp only [List.mem_append, rxnCalls, symOf_rxns, List.mem_map]
-      exact Or.inr ⟨(kv.1, symRxnOf c kv.2), ⟨kv, hkv, rfl⟩, rfl⟩
-    refine ⟨hall _ hm _ (by simp [Call.refs]), ?_⟩
-    intro vc hvc r hr
-    refine hall _ hm r ?_
-    simp only [Call.refs, List.mem_cons, List.mem_flatMap, List.mem_map, symRxnOf]
-    exact Or.inr ⟨(vc.1, stoichVal (takenOf (symOf c)) kv.1 (symCoefOf c vc.2)), ⟨(vc.1, symCoefOf c vc.2), ⟨vc, hvc, rfl⟩, rfl⟩, hr⟩
-  unfold roundTrip
-  rw [toSymbolicRepr_nil]
-  have hg : genMxlpy (symOf c) = .ok (genProgram (symOf c)) := by
-    simp only [genMxlpy, hnd]; rfl
-  simp only [bind, Except.bind, hg, runProgram, checkDefs_ok _ hnd, genMxlpy_build]
-  generalize (genProgram (symOf c)).defs = D at g hV hP hD hR ⊢
   have e0 : (symOf c).variables = c.vars.map fun kv => (kv.1, symValOf c kv.2) := rfl
   have e0' : (symOf c).parameters = c.pars.map fun kv => (kv.1, symValOf c kv.2) := rfl
   have e0'' : (symOf c).derived = c.derived.map fun kv => (kv.1, symFnOf c kv.2) := rfl
+  rw [genMxlpy_build, e0, e0', e0'', symOf_rxns] at hall
+  unfold roundTrip
+  rw [toSymbolicRepr_nil]
+  have hg : genMxlpy (symOf c) = .ok (genProgram (symOf c)) := by
+    simp only [genMxlpy, hnd, hcons]; rfl
+  simp only [bind, Except.bind, hg, runProgram, checkDefs_ok _ hnd, genMxlpy_build]
+  generalize (genProgram (symOf c)).defs = D at g hall ⊢
   rw [runCalls_append, runCalls_append, runCalls_append, e0, e0', e0'', symOf_rxns]
-  rw [run_vars g _ c.vars {} hV]
+  rw [run_vars g c.vars _ {} (fun call hcall => hall call (by simp [hcall]))]
   simp only [Except.bind]
-  rw [run_pars g _ c.pars _ hP]
+  rw [run_pars g c.pars _ _ (fun call hcall => hall call (by simp [hcall]))]
   simp only [Except.bind]
-  rw [run_derived g c.derived _ hD]
+  rw [run_derived g c.derived _ (fun call hcall => hall call (by simp [hcall]))]
   simp only [Except.bind]
-  rw [run_rxns g _ c.rxns _ hR, toContent_eq]
+  rw [run_rxns g c.rxns _ _ (fun call hcall => hall call (by simp [hcall])), toContent_eq]
   simp
 
 end Mxl.C11
